@@ -87,6 +87,18 @@ def encode_header(hdr: str) -> bytes:
 
 ########################################################################
 #
+def quoted(value: str) -> str:
+    """
+    Return `value` as an IMAP quoted string: wrapped in double quotes, with
+    backslashes and double quotes escaped and no CR or LF in it.
+    """
+    value = str(value).replace("\\", "\\\\").replace('"', '\\"')
+    value = value.replace("\r", " ").replace("\n", " ")
+    return f'"{value}"'
+
+
+########################################################################
+#
 def encode_addrs(msg: Message, field: str) -> bytes:
     """
     Encode all the email addresses in a given field in the message as an
@@ -551,12 +563,12 @@ class FetchAtt:
         for value in values:
             if "," in value:
                 for lng in value.split(","):
-                    langs.add(f'"{lng.strip()}"')
+                    langs.add(quoted(lng.strip()))
             elif ";" in value:
                 for lng in value.split(";"):
-                    langs.add(f'"{lng.strip()}"')
+                    langs.add(quoted(lng.strip()))
             else:
-                langs.add(f'"{value.strip()}"')
+                langs.add(quoted(value.strip()))
 
         if not langs:
             return b"NIL"
@@ -615,7 +627,7 @@ class FetchAtt:
 
         results = []
         for k, v in params.items():
-            results.append(f'"{k.upper()}" "{v}"')
+            results.append(f"{quoted(k.upper())} {quoted(v)}")
 
         try:
             res = (f"({' '.join(results)})").encode("latin-1")
@@ -659,12 +671,12 @@ class FetchAtt:
 
         params = msg["Content-Disposition"].params  # type: ignore[union-attr]
         if not params:
-            return (f'("{cd}" NIL)').encode("latin-1")
+            return (f"({quoted(cd)} NIL)").encode("latin-1")
 
         result = []
         for param, value in params.items():
-            result.append(f'"{param.upper()}" "{value}"')
-        res = f'("{cd.upper()}" ({" ".join(result)}))'
+            result.append(f"{quoted(param.upper())} {quoted(value)}")
+        res = f'({quoted(cd.upper())} ({" ".join(result)}))'
         try:
             return res.encode("latin-1")
         except UnicodeEncodeError:
@@ -802,7 +814,7 @@ class FetchAtt:
             if "Content-Transfer-Encoding" in msg
             else "7BIT"
         )
-        result.append((f'"{cte}"').encode("latin-1"))
+        result.append(quoted(cte).encode("latin-1", errors="replace"))
 
         # Body size
         payload = msg_as_bytes(msg, render_headers=False)
